@@ -123,6 +123,26 @@ def run_unit(A, unit, rep, tier):
                 rep.ok("C06.e", f"C06.e {f.qualname}: the reference hash of a new entry is the hash of the stored contents")
             else:
                 rep.fail("C06.e", norm_key("C06.e", f.qualname), f"{f.qualname}: the reference hash stored with a new buffer entry is not (unconditionally) the hash of the contents stored with it: a file that was only read looks modified (or a modified one unmodified)", [], g.label)
+    # (h) who may point a buffer entry at a container: the entry creator and the save of an operation.  A flush that
+    # stores another container as the entry's contents (e.g. the copy it rebuilt for a still-buffered object) detaches
+    # every nested handle obtained earlier: writes through them reach neither the buffer nor the file.
+    for func, classes in flush_impls(A).items():
+        cls = classes[0]
+        bad = None
+        for mu in A.modes(cls):
+            for force in (False, True):
+                b, g = A.graph(cls, "_flush", "root", mu, args=[Val("const", force)])
+                rep.context(g.label, True)
+                for n in live(g):
+                    if n.kind == "cs_write" and n["name"] == "_buffer" and n["op"] == "setitem" and n["index"] == Val("const", "contents") and own(n):
+                        bad = (n, g)
+        if bad is None:
+            rep.ok("C06.h", f"C06.h {func.qualname}: a flush never re-points a buffer entry's contents")
+        else:
+            n, g = bad
+            rep.fail("C06.h", norm_key("C06.h", func.qualname, "contents"),
+                     f"{func.qualname}: `{n.stmt}` makes the shared buffer entry point at another container; the objects and nested handles that share the previous one are detached and their later writes are lost",
+                     g.witness(g.path(g.entry, [n.id]) or [n.id]), g.label)
     fb = {}
     for cls in A.concrete():
         if A.is_buffered(cls):
@@ -133,11 +153,29 @@ def run_unit(A, unit, rep, tier):
         rep.context(g.label, True)
         hs = [n.id for n in live(g) if n.kind == "handler" and "KeyError" in n["types"] and (own(n) or n.func.endswith("._flush_buffer"))]
         pops = [n.id for n in live(g) if n.kind == "cs_write" and n["name"] == "_buffered_collections" and n["op"].startswith("call:pop")]
+        # the registry found empty by an explicit test (`if not registry: break`, `while registry:`) is the same witness of exhaustion
+        hs += [n.id for n in live(g) if n.kind == "arm" and (own(n) or n.func.endswith("._flush_buffer")) and _registry_empty_arm(g.nodes[n["branch"]]["cond"], n["arm"])]
         w = g.must_pass(g.entry, [g.exit], hs)
         if w is None and hs and pops:
             rep.ok("C06.d", f"C06.d {func.qualname}: the flush loop ends only when the registry is exhausted")
         else:
             rep.fail("C06.d", norm_key("C06.d", func.qualname, "loop"), f"{func.qualname} can finish before every registered collection was visited", g.witness(w or []), g.label)
+
+
+def _registry_empty_arm(c, arm):
+    """The arm of a test on which the registry of buffered collections is known to be empty."""
+    if c.kind == "not":
+        return _registry_empty_arm(c.args[0], not arm)
+    if c.kind == "cattr" and c.args[1] == "_buffered_collections":
+        return arm is False
+    if c.kind == "cmp" and c.args[0] in ("==", "!=", ">", "<") and len(c.args) == 3:
+        a, b = c.args[1], c.args[2]
+        if c.args[0] == "<":
+            a, b = b, a
+        is_len = a.kind == "call" and a.args[0] == "len" and any(x.kind == "cattr" and x.args[1] == "_buffered_collections" for x in a.walk())
+        if is_len and b == Val("const", 0):
+            return arm is (c.args[0] == "==")
+    return False
 
 
 def recv_like_root(n):
